@@ -231,6 +231,138 @@ theorem applied_ticks_advance_by_one_each (s : St) (n : Nat) (h : s.alphabet = t
     simp only at this
     omega
 
+
+/-! ### histories against ONE processor and ONE validator instance
+
+`hrun` runs admissions, peer updates, ticks, notifications, alphabet changes and changes of the
+world the validators consult, all against the same processor state.  The statements below are
+for EVERY initial state, EVERY validator list and EVERY finite history. -/
+
+/-- a request (admission, peer update, tick) leaves NO trace in the processor: whatever was
+    announced and whatever the verdict was, the state after it is the state before it -/
+theorem request_leaves_no_trace (s : HSt) (e : HEv) (h : e.isRequest = true) : (hstep s e).1 = s := by
+  cases e <;> simp [HEv.isRequest] at h <;> rfl
+
+/-- the state after a history is the state after its non-request events alone -/
+theorem state_ignores_requests (s : HSt) (evs : List HEv) :
+    (hrun s evs).1 = (hrun s (evs.filter (fun e => !e.isRequest))).1 := by
+  induction evs generalizing s with
+  | nil => rfl
+  | cons e r ih =>
+    cases hreq : e.isRequest with
+    | true =>
+      simp only [hrun, List.filter_cons, hreq, Bool.not_true, Bool.false_eq_true, if_false]
+      rw [request_leaves_no_trace s e hreq]
+      exact ih s
+    | false =>
+      simp only [hrun, List.filter_cons, hreq, Bool.not_false, if_true]
+      exact ih (hstep s e).1
+
+/-- MAIN (histories): the verdict on a candidate depends only on the candidate and on what the
+    world, the alphabet flag and the validator list are NOW.  Two histories that differ only in
+    the requests made before (other candidates of the same or other keys, approved or rejected,
+    in any number and order; peer updates; ticks) give the same outcome, the same first
+    rejecting validator and the same number of validator calls -/
+theorem verdict_independent_of_earlier_candidates (s : HSt) (pre pre' : List HEv) (halts : Bool) (c : Cand)
+    (h : pre.filter (fun e => !e.isRequest) = pre'.filter (fun e => !e.isRequest)) :
+    (hstep (hrun s pre).1 (.addNode halts c)).2 = (hstep (hrun s pre').1 (.addNode halts c)).2 := by
+  rw [state_ignores_requests s pre, state_ignores_requests s pre', h]
+
+/-- the validator list of the process never changes -/
+theorem vs_constant (s : HSt) (evs : List HEv) : (hrun s evs).1.vs = s.vs := by
+  induction evs generalizing s with
+  | nil => rfl
+  | cons e r ih =>
+    simp only [hrun]
+    rw [ih]
+    cases e <;> simp only [hstep] <;> (try split) <;> rfl
+
+/-- MAIN (histories): after ANY history the candidate is approved iff the node is an alphabet
+    node now, the script halts, the structure converts and EVERY configured validator accepts
+    what the candidate announces in the world as it is now -/
+theorem history_approve_iff (s : HSt) (pre : List HEv) (halts : Bool) (c : Cand) :
+    (∃ n, (hstep (hrun s pre).1 (.addNode halts c)).2 = .admission .approved n) ↔
+      (hrun s pre).1.ep.alphabet = true ∧ halts = true ∧ c.convertible = true ∧
+      ∀ v ∈ s.vs, v.ok (view (hrun s pre).1.w c) = true := by
+  have hvs := vs_constant s pre
+  simp only [hstep, HOut.admission.injEq, hvs]
+  constructor
+  · rintro ⟨n, h, _⟩
+    exact (approve_iff_all_validators _ _ _ _ _).1 h
+  · intro h
+    exact ⟨_, (approve_iff_all_validators _ _ _ _ _).2 h, rfl⟩
+
+/-- the same candidate announced twice in a row gets the same verdict (approval is not sticky,
+    rejection is not sticky) -/
+theorem repeated_candidate_same_verdict (s : HSt) (halts : Bool) (c c' : Cand) (halts' : Bool) :
+    (hrun s [.addNode halts' c', .addNode halts c]).2.getLast? = some (hstep s (.addNode halts c)).2 := by
+  simp [hrun, hstep]
+
+/-- the epoch part of a history runs exactly as the epoch model on the epoch events of the
+    history: admissions, peer updates and world changes in between change neither the counter,
+    nor the alphabet flag, nor the requests made -/
+theorem history_epoch_refines (s : HSt) (evs : List HEv) :
+    (hrun s evs).1.ep = (run s.ep (evs.filterMap HEv.toEv)).1 ∧
+    (hrun s evs).2.flatMap HOut.reqs = (run s.ep (evs.filterMap HEv.toEv)).2 := by
+  induction evs generalizing s with
+  | nil => simp [hrun, run]
+  | cons e r ih =>
+    cases e with
+    | addNode h c =>
+      rw [List.filterMap_cons_none (by rfl)]
+      simpa [hrun, hstep, HOut.reqs] using ih s
+    | updPeer =>
+      rw [List.filterMap_cons_none (by rfl)]
+      simpa [hrun, hstep, HOut.reqs] using ih s
+    | tick =>
+      have := ih s
+      simp only [hrun, hstep, HEv.toEv, List.filterMap_cons, run, step, List.flatMap_cons, HOut.reqs]
+      exact ⟨this.1, by rw [this.2]⟩
+    | newEpoch k =>
+      simp only [hrun, hstep, HEv.toEv, List.filterMap_cons, run, step]
+      split
+      · simpa [HOut.reqs] using ih { s with ep := { s.ep with counter := k, timerResets := s.ep.timerResets + 1 } }
+      · simpa [HOut.reqs] using ih { s with ep := { s.ep with counter := k, timerResets := s.ep.timerResets + 1 }, curMap := s.chain }
+    | setAlphabet b => simpa [hrun, hstep, HEv.toEv, HOut.reqs, run, step] using ih { s with ep := { s.ep with alphabet := b } }
+    | setNns recs down =>
+      rw [List.filterMap_cons_none (by rfl)]
+      simpa [hrun, hstep, HOut.reqs] using ih { s with w := { s.w with nns := recs, nnsDown := down } }
+    | serve k c =>
+      rw [List.filterMap_cons_none (by rfl)]
+      simp only [hrun, hstep, List.flatMap_cons, HOut.reqs, List.nil_append]
+      exact ih _
+    | setExt deny =>
+      rw [List.filterMap_cons_none (by rfl)]
+      simpa [hrun, hstep, HOut.reqs] using ih { s with w := { s.w with extDeny := deny } }
+    | setChain keys down =>
+      rw [List.filterMap_cons_none (by rfl)]
+      simpa [hrun, hstep, HOut.reqs] using ih { s with chain := keys, chainDown := down }
+
+/-- hence inside ANY history (admissions and world changes included) a tick of an alphabet node
+    requests exactly the epoch after the last notified one, once -/
+theorem history_tick_requests_next_epoch (s : HSt) (pre : List HEv) :
+    (hstep (hrun s pre).1 .tick).2 =
+      .requests (if alphabetAfter s.ep.alphabet (pre.filterMap HEv.toEv)
+                 then [lastNotified s.ep.counter (pre.filterMap HEv.toEv) + 1] else []) := by
+  have h := (history_epoch_refines s pre).1
+  have h2 := state_after s.ep (pre.filterMap HEv.toEv)
+  simp only [hstep, step, h, h2.1, h2.2]
+
+/-- the network map snapshot after a processed notification is the contract's map of that moment
+    (when it could be read; otherwise the snapshot is kept), and placements are updated exactly
+    when the snapshot changed on an alphabet node -/
+theorem snapshot_after_newEpoch (s : HSt) (e : Nat) :
+    (hstep s (.newEpoch e)).1.curMap = (if s.chainDown then s.curMap else s.chain) ∧
+    (hstep s (.newEpoch e)).2 =
+      (if s.chainDown then .epoch false false else .epoch (s.curMap != s.chain && s.ep.alphabet) true) := by
+  simp only [hstep]
+  split <;> simp
+
+/-- and the snapshot plays no role in admission: a node that is in the snapshot is validated
+    like any other -/
+theorem admission_ignores_snapshot (s : HSt) (m ch : List Nat) (d : Bool) (halts : Bool) (c : Cand) :
+    (hstep { s with curMap := m, chain := ch, chainDown := d } (.addNode halts c)).2 = (hstep s (.addNode halts c)).2 := rfl
+
 /-! ### non-vacuity -/
 
 def goodNode : Node :=
@@ -245,5 +377,22 @@ example : processAddNode true false true [.state] goodNode = .badScript := by de
 example : processAddNode false true true [.state] goodNode = .ignored := by decide
 example : (run ⟨7, true, 0⟩ [.tick, .newEpoch 8, .tick, .setAlphabet false, .tick, .newEpoch 12, .setAlphabet true, .tick]).2 = [8, 9, 13] := by decide
 example : (run ⟨7, false, 0⟩ [.tick, .newEpoch 8, .tick]).2 = [] := by decide
+
+/-! non-vacuity of the history statements: one key approved, then claiming a domain it has no record for (rejected by
+    validator 3), then the record appears; a node that stopped answering is rejected with the very descriptor approved before -/
+def histCand : Cand :=
+  { key := 2, state := .online, addrsOk := [true], attrKeys := ["Price"], attrVal := 0, domain := 0,
+    hasLocode := false, locodeKnown := true, locodeFields := [true, true, true, true, true, true] }
+def histInit : HSt := { ep := ⟨4, true, 0⟩, vs := [.state, .structure, .availability, .privateDomains, .locode, .external] }
+
+example : (hrun histInit [.serve 2 (some histCand), .addNode true histCand,
+      .addNode true { histCand with domain := 1 },
+      .serve 2 (some { histCand with domain := 1 }), .addNode true { histCand with domain := 1 },
+      .setNns [(1, 2)] false, .addNode true { histCand with domain := 1 },
+      .serve 2 none, .addNode true { histCand with domain := 1 },
+      .tick, .setChain [2] false, .newEpoch 5, .tick, .newEpoch 6]).2 =
+    [.env, .admission .approved 6, .admission (.rejected 2) 3, .env, .admission (.rejected 3) 4, .env,
+     .admission .approved 6, .env, .admission (.rejected 2) 3, .requests [5], .env, .epoch true true, .requests [6],
+     .epoch false true] := by decide
 
 end NeoFS.IRNetmap
